@@ -37,9 +37,10 @@ CONSTANTS
   \*    body   : [service -> set of subsets of {"command","args","env"}],
   \*    expk   : [service -> set of expose kind names],
   \*    counts : set of replica counts,
-  \*    quants : [profile -> set of quantity records [cpu, cpuArch, mem, storage, storageAttrs]]]
+  \*    quants : [profile -> tag of a set of quantity records [cpu, cpuArch, mem, storage, storageAttrs]]]
   \* DocSpace is the union over the slices of the full product of the choices (see DocsFor).
-  Slices
+  Slices,
+  QuantsOf(_)  \* tag -> the set of quantity records (an operator, so that big unit universes are built on use only)
 
 VARIABLES doc, ord, out
 vars == <<doc, ord, out>>
@@ -178,14 +179,21 @@ MkDoc(svcs, profs, places, body, expk, assign, deploy, cnt, quant) ==
 FuncsBy(D, Choice) == {f \in [D -> UNION {Choice[x] : x \in D}] : \A x \in D : f[x] \in Choice[x]}
 
 DocsFor(sl) ==
-  LET SS == Range(sl.svcs) PS == Range(sl.profs) LS == Range(sl.places) IN
+  LET SS == Range(sl.svcs) PS == Range(sl.profs) LS == Range(sl.places)
+      \* one quantity record per profile; each universe QuantsOf(tag) is built once (they can be large)
+      quantChoices ==
+        IF Len(sl.profs) = 1
+        THEN { [c \in PS |-> q1] : q1 \in QuantsOf(sl.quants[sl.profs[1]]) }
+        ELSE { [c \in PS |-> IF c = sl.profs[1] THEN q1 ELSE q2] :
+                 q1 \in QuantsOf(sl.quants[sl.profs[1]]), q2 \in QuantsOf(sl.quants[sl.profs[2]]) }
+  IN
   { MkDoc(sl.svcs, sl.profs, sl.places, body, expk, assign, deploy, cnt, quant) :
+      quant  \in quantChoices,
       body   \in FuncsBy(SS, sl.body),
       expk   \in FuncsBy(SS, sl.expk),
       assign \in [SS -> PS],
       deploy \in [SS -> (SUBSET LS) \ {{}}],
-      cnt    \in [SS -> sl.counts],
-      quant  \in FuncsBy(PS, sl.quants) }
+      cnt    \in [SS -> sl.counts] }
 
 \* (an operator with a parameter on purpose: TLC evaluates parameterless constant definitions eagerly, once per worker)
 DocSpaceOf(slices) == UNION { DocsFor(slices[i]) : i \in 1..Len(slices) }
